@@ -181,6 +181,36 @@ mod verif_kani {
         kani::cover!(true);
     }
 
+    /// rlp::iter over N items of two symbolic bytes each: the output is hdr(2N, 0xc0) followed by every item, in order -
+    /// none dropped, repeated or reordered (the contract the typed-transaction / access-list harnesses assume of iter)
+    fn iter_items_at<const N: usize>() {
+        let items: [[u8; 2]; N] = kani::any();
+        let out = iter(items.iter());
+        let h = check_hdr(&out, 2 * N, 0xc0);
+        assert!(out.len() == h + 2 * N, "iter: header followed by exactly the items");
+        let mut i = 0;
+        while i < N {
+            assert!(out[h + 2 * i] == items[i][0] && out[h + 2 * i + 1] == items[i][1], "iter: every item, in order");
+            i += 1;
+        }
+        kani::cover!(true);
+    }
+    macro_rules! iter_items {
+        ($($name:ident => $n:expr, $u:expr;)*) => {$(
+            #[kani::proof]
+            #[kani::unwind($u)]
+            fn $name() { iter_items_at::<$n>() }
+        )*};
+    }
+    iter_items! {
+        c07_iter_n0 => 0, 4;
+        c07_iter_n1 => 1, 5;
+        c07_iter_n12 => 12, 27;
+        c07_iter_n17 => 17, 37;
+        c07_iter_n28 => 28, 59;
+        c07_iter_n40 => 40, 83;
+    }
+
     // ---- cross-checks of the interface contracts the Verus unit assumes ----
     #[kani::proof]
     #[kani::unwind(10)]
@@ -283,6 +313,18 @@ pub(crate) mod verif_tokens {
     pub static mut LIST_CALLS: usize = 0;
     pub static mut NITEMS: usize = 0;
     pub static mut ITEMS: [u8; 16] = [0xff; 16];
+    // node table for nested lists: KIND 4 = rlp::list, 5 = rlp::iter; children are the one-byte tokens of the items
+    pub static mut CHILD_N: [usize; 24] = [0; 24];
+    pub static mut CHILD: [[u8; 16]; 24] = [[0xff; 16]; 24];
+    fn tok_of(s: &[u8]) -> u8 {
+        if s.len() == 1 {
+            s[0]
+        } else {
+            0xfe
+        }
+    }
+    /// callee contract of rlp::iter; the k-th encoder call overall, returns the one-byte string [k] (the typed-transaction
+    /// harnesses, where it is the only list, additionally read the items of the last call from ITEMS / NITEMS)
     pub fn iter_token<U, I>(items: I) -> Vec<u8>
     where
         U: AsRef<[u8]>,
@@ -290,17 +332,50 @@ pub(crate) mod verif_tokens {
     {
         unsafe {
             LIST_CALLS += 1;
+            let mut toks = [0xffu8; 16];
             let mut n = 0;
             for it in items {
-                let s = it.as_ref();
                 if n < 16 {
-                    ITEMS[n] = if s.len() == 1 { s[0] } else { 0xfe };
+                    toks[n] = tok_of(it.as_ref());
                 }
                 n += 1;
             }
+            // the items are encoded (and take their numbers) before the list that contains them
+            let k = CALLS;
+            CALLS += 1;
+            if k < 24 {
+                KIND[k] = 5;
+                CHILD_N[k] = n;
+                CHILD[k] = toks;
+            }
+            ITEMS = toks;
             NITEMS = n;
+            vec![k as u8]
         }
-        vec![0xee]
+    }
+    /// callee contract of rlp::list, same recording
+    pub fn list_token(items: &[&[u8]]) -> Vec<u8> {
+        unsafe {
+            let k = CALLS;
+            CALLS += 1;
+            if k < 24 {
+                KIND[k] = 4;
+                CHILD_N[k] = items.len();
+                let mut i = 0;
+                while i < items.len() && i < 16 {
+                    CHILD[k][i] = tok_of(items[i]);
+                    i += 1;
+                }
+            }
+            vec![k as u8]
+        }
+    }
+    pub fn is_list(tok: u8, kind: u8, n: usize) -> bool {
+        let k = tok as usize;
+        k < 24 && unsafe { KIND[k] == kind && CHILD_N[k] == n }
+    }
+    pub fn child(tok: u8, i: usize) -> u8 {
+        unsafe { CHILD[tok as usize % 24][i % 16] }
     }
     pub fn is_uint(tok: u8, v: U256) -> bool {
         let k = tok as usize;
